@@ -65,8 +65,9 @@ MANIFEST_ENTRY = {
             "selects the first commonly supported wamp.2.* subprotocol in the client's order, none iff there is none [ws_select_first_common, "
             "ws_select_none_iff]; both ends then hold the same serializer id, hence the same text/binary framing "
             "[ws_both_same_serializer_and_framing]; 1002/1011 mapping, fail-closed ladders, session told at most/exactly once. "
-            "_partial (full statement kept as a Prop, negation witnessed): rs_refuse_clean (F12), prefix_never_raises (F13, N1), "
-            "rs_limits_error_class (F14). Tied to the code by the runs listed in the rule.",
+            "every refused handshake closes the transport without an exception [rs_refuse_clean, full since the F12 repair]; the send side equals "
+            "the Spec incl. the PayloadExceededError class [rs_limits_error_class, full since the F14 repair]. "
+            "_partial (full statement kept as a Prop, negation witnessed): prefix_never_raises (F13, N1). Tied to the code by the runs listed in the rule.",
     "note": "Trusted: Lean kernel; the hand-written models mirror the code (checked only by the differential runs); Int32StringReceiver and the "
             "serializer libraries are exercised, not verified. messages_in_order across the WebSocket engine relies on C01/C03 and is observed "
             "here only on generated sequences.",
